@@ -24,7 +24,8 @@ L(e) == [k \in DOMAIN e.loaded.ents |-> [c |-> e.loaded.ents[k].c, r |-> e.loade
 If(c, name) == IF c THEN {name} ELSE {}
 
 \* a row-id array with more elements than its length word can count has no file: the writer must refuse (raise)
-TooLong(e) == e.rws \in {1, 2} /\ \E k \in DOMAIN e.x.ents : Len(e.x.ents[k].r) >= (IF e.rws = 1 THEN 256 ELSE 65536)
+\* (the second conjunct of Indx!RwsOK, the pre-condition of Encode)
+TooLong(e) == \E k \in DOMAIN e.x.ents : ~FitsBytes(FromNat(Len(e.x.ents[k].r)), e.rws)
 
 WriterClauses(e) ==
   LET x == X(e)  b == e.bytes  n == Len(x.ents)
